@@ -175,6 +175,8 @@ def deviations(honest, tls13=False):
             out.append({i: ("insert", w)})
         for w in INSERTS_NOHASH:
             out.append({i: ("insert-nohash", w)})
+        for desc in (41, 90, 100):      # no_certificate, user_canceled,
+            out.append({i: ("replace-alert", desc)})   # no_renegotiation
         if tls13 and dict(honest)[i] in ("CH", "SH", "FIN", "HRR"):
             for frag in FRAGMENTS:
                 out.append({i: ("straddle", frag)})
